@@ -131,7 +131,14 @@ Definition zmonitor (which : N) (cfg : list N) (tr : list (list N * obs)) : bool
                                | [31%N; k; w] => ([5%N; nN (kr - 1 - N.to_nat k); w], snd e)
                                | [32%N; k] => ([6%N; nN (kr - 1 - N.to_nat k)], snd e)
                                | _ => e end) tr in
-      match which with 11%N => monitor which cfg tr | _ => monitor which cfg tr' end
+      match which with
+      (* C11 = handle lifecycle (raw trace) and "a closing call wakes every pending future" *)
+      | 11%N => monitor 11%N cfg tr && monitor 21%N cfg tr'
+      (* C08 = conservation (stream ops seen as receive-future ops) and placement of destruction
+         (raw trace: a shared stream owns a receiver handle) *)
+      | 8%N => monitor 8%N cfg tr' && monitor 18%N cfg tr
+      | _ => monitor which cfg tr'
+      end
   | _ => true
   end.
 
